@@ -9,6 +9,17 @@ ROOT = os.path.dirname(os.path.dirname(os.path.abspath(__file__)))
 
 # id -> (level, technique, text, note, design_ref)
 CHECKS = {
+    "C02": (
+        "exploration",
+        "deterministic simulation: seeded mixes of actor behaviours run concurrently by a real Worker; per-delivery oracle over the recorded broker calls",
+        "Seeded mixes of 1-8 jobs covering the whole outcome table (return, raise, timeout, conversion failure, failing dependency, "
+        "six eager responses with results/exceptions/callbacks incl. raising callbacks) x retry budget x pre-set attempt counter x "
+        "recurring x result storing x converter, processed concurrently by one Worker on all three brokers. Per delivery: exactly "
+        "one top-level terminal action, the prescribed one with the prescribed counter, one actor invocation, nothing after an eager "
+        "response, worker returns normally, nothing reaches the loop's exception handler.",
+        "Samples scenarios. The check's own stop request at the end exempts deliveries it interrupts (C03 covers those).",
+        "DESIGN.md section 8 C02",
+    ),
     "C01": (
         "exploration",
         "deterministic simulation: seeded multi-client broker-API scripts with call cancellation at seeded step offsets; reference lifecycle model vs broker-side state",
